@@ -361,7 +361,11 @@ def execute(plan, ctx):
             if op["via"] in ("deepcopy", "pickle"):
                 import copy as _copy
                 import pickle as _pickle
-                child = _copy.deepcopy(objs[i]) if op["via"] == "deepcopy" else _pickle.loads(_pickle.dumps(objs[i]))
+                try:
+                    child = _copy.deepcopy(objs[i]) if op["via"] == "deepcopy" else _pickle.loads(_pickle.dumps(objs[i]))
+                except Exception:
+                    ctx.probe("object_cannot_be_copied")      # copying is not part of the statement
+                    continue
             elif op["via"] == "permutant":
                 child = SequencePermutants(seqs[i]).get_permutant()
             elif op["via"] == "frozen_all":
@@ -377,6 +381,9 @@ def execute(plan, ctx):
                 if check_render(html, cs, cand) is None:
                     start = dict(cand)
                     break
+            if start is None and alias_edited(i):
+                from ..kernel import Discard
+                raise Discard("a copy of an object whose source dictionary was edited by the caller (aliasing is not covered by the statement)")
             if start is None:
                 raise Violation("render_mismatch", "render:copy", "a shuffled copy of object %d renders under neither the default nor its parent's palette" % i)
             pals.append(start)
